@@ -95,3 +95,50 @@ def selectionOf (cfg : Config) (g : Graph) : Selection :=
 
 end Spec
 end Shexer
+
+namespace Shexer
+namespace Spec
+
+/-- value class of a constraint key (C02): a literal datatype, "non-literal node", or - for the
+instantiation property - a specific class value -/
+inductive VClass
+  | datatype (dt : String)
+  | nonliteral
+  | classValue (c : String)
+deriving DecidableEq, Repr
+
+def vclassOfTerm (cfg : Config) (p : String) (t : Term) : VClass :=
+  if p == cfg.instProp then VClass.classValue t.key
+  else match t with
+    | .lit dt => VClass.datatype dt
+    | _ => VClass.nonliteral
+
+/-- number of values of node `n` in value class `vc` -/
+def vcCount (cfg : Config) (sel : Selection) (g : Graph) (inv : Bool) (n p : String) (vc : VClass) : Nat :=
+  match vc with
+  | .datatype dt => if inv then inCount cfg sel g n p dt else outCount cfg sel g n p dt
+  | .nonliteral => nonlitCount cfg sel g inv n p
+  | .classValue c => if inv then inCount cfg sel g n p c else outCount cfg sel g n p c
+
+/-- instances of class `c` having at least one value in the value class -/
+def keyCount (cfg : Config) (sel : Selection) (g : Graph) (c : String) (inv : Bool) (p : String) (vc : VClass) : Nat :=
+  ((Dict.keys sel).filter fun n => (classesIn sel n).contains c).countP fun n => decide (1 ≤ vcCount cfg sel g inv n p vc)
+
+def dedupKeys : List (Bool × String × VClass) → List (Bool × String × VClass)
+  | [] => []
+  | x :: xs => x :: (dedupKeys xs).filter (· != x)
+
+/-- every (direction, property, value class) some instance of `c` has a value for -/
+def observedKeys (cfg : Config) (sel : Selection) (g : Graph) (c : String) : List (Bool × String × VClass) :=
+  let isInst (t : Term) : Bool := t.isNode && (classesIn sel t.key).contains c
+  dedupKeys ((visible cfg g).flatMap fun t =>
+    (if isInst t.s then [(false, t.p, vclassOfTerm cfg t.p t.o)] else []) ++
+    (if cfg.inverse && isInst t.o && t.s.isNode then [(true, t.p, vclassOfTerm cfg t.p t.s)] else []))
+
+/-- C02: the keys a shape for `c` must contain at threshold `a / b` -/
+def expectedKeys (cfg : Config) (sel : Selection) (g : Graph) (c : String) : List (Bool × String × VClass) :=
+  (observedKeys cfg sel g c).filter fun k =>
+    decide (keyCount cfg sel g c k.1 k.2.1 k.2.2 * cfg.thDen ≥ cfg.thNum * classSize sel c)
+
+end Spec
+end Shexer
